@@ -1387,9 +1387,9 @@ def run(rep, tier, seed, replay=None):
             probes = []
             orig_enc = sp.path_encloses_pt
 
-            def spy(pt_, opt_, path_):
-                probes.append((pt_, opt_))
-                return orig_enc(pt_, opt_, path_)
+            def spy(pt, opt, path):          # same parameter names as path_encloses_pt (it may be called by keyword)
+                probes.append((pt, opt))
+                return orig_enc(pt, opt, path)
             sp.path_encloses_pt = spy        # observe the probe is_contained_by chooses (harness-side wrapper)
             try:
                 got = bool(inner.is_contained_by(outer))
@@ -1475,9 +1475,9 @@ def run(rep, tier, seed, replay=None):
             probes = []
             orig_enc = sp.path_encloses_pt
 
-            def spy(pt_, opt_, path_):
-                r_ = orig_enc(pt_, opt_, path_)
-                probes.append((pt_, opt_, bool(r_)))
+            def spy(pt, opt, path):          # same parameter names as path_encloses_pt (it may be called by keyword)
+                r_ = orig_enc(pt, opt, path)
+                probes.append((pt, opt, bool(r_)))
                 return r_
             sp.path_encloses_pt = spy
             try:
